@@ -181,8 +181,22 @@ pub fn secret_from_seed(seed: u64) -> p256::SecretKey {
     }
 }
 
+/// the private key of a prelude credential
+pub fn secret_of_pre(pre: &PreCred) -> p256::SecretKey {
+    let mut sk = secret_from_seed(pre.key_seed);
+    if pre.key_layout == 5 {
+        // the nearest seed whose scalar starts with a zero byte
+        let mut k = pre.key_seed;
+        while sk.to_bytes()[0] != 0 {
+            k = k.wrapping_add(1);
+            sk = secret_from_seed(k);
+        }
+    }
+    sk
+}
+
 pub fn passkey_from_pre(pre: &PreCred) -> Passkey {
-    let sk = secret_from_seed(pre.key_seed);
+    let sk = secret_of_pre(pre);
     let pt = sk.public_key();
     let ep = p256::EncodedPoint::from(pt);
     let x = ep.x().unwrap().to_vec();
@@ -203,6 +217,20 @@ pub fn passkey_from_pre(pre: &PreCred) -> Passkey {
         let params: Vec<_> = order.iter().filter_map(|l| by_label(&key, *l)).collect();
         if params.len() == order.len() {
             key.params = params;
+        }
+    }
+    if pre.key_layout == 4 {
+        key.alg = None;
+    }
+    if pre.key_layout == 5 {
+        for (l, v) in key.params.iter_mut() {
+            if *l == coset::Label::Int(-4) {
+                if let ciborium::value::Value::Bytes(b) = v {
+                    if b.first() == Some(&0) {
+                        b.remove(0);
+                    }
+                }
+            }
         }
     }
     let mut r = Rng::new(pre.key_seed ^ 0x686d_6163);
